@@ -23,6 +23,7 @@ func (fc *FnCtx) instr(in ssa.Instruction, idx int) {
 		fc.unop(x)
 	case *ssa.Call:
 		fc.doCall(x, x.Common(), x)
+		fc.recordCallRes(x)
 	case *ssa.ChangeInterface:
 		fc.setVal(x, Val{K: KIface, C: fc.val(x.X).C})
 	case *ssa.ChangeType:
